@@ -123,6 +123,9 @@ class CheckContext:
         r = self._new(f"{self.prop}/{ident}", tag, clause)
         r.replay = replay
         r.fn = fn
+        # `[] |- False` is not a verification condition of the code: a contract uses it to say "the symbolic run did not have the shape I expected" (e.g. no
+        # normally returning path).  The solver "refuting" it carries no information about the code, so the obligation's run-time replay decides (see finish()).
+        r.structural = (len(hyps) == 0 and z3.is_false(goal))
         if opts.pop("algebra", False) and z3.is_eq(goal):
             from . import cert
             try:
@@ -328,6 +331,13 @@ class CheckContext:
                 except Exception as e:  # replay harness failure
                     native = {"reproduced": False, "error": f"replay harness failed: {e!r}", "trace": traceback.format_exc()[-800:]}
             reproduced = bool(native and native.get("reproduced"))
+            if getattr(r, "structural", False) and r.replay is not None and not reproduced:
+                # the symbolic run was not of the expected shape, and the real code passes the obligation's replay family: an executor / model limitation (undecided),
+                # not a violation -- a failed proof attempt is never reported as a property violation
+                r.verdict = "unknown"
+                r.why = "the symbolic run did not have the shape the contract expects (no returning path / unexpected forks); the real code passes the run-time replay of this obligation"
+                undecided.append(r)
+                continue
             kf = self.match_known(known, r, native)
             if kf is not None:
                 msg = f"KNOWN-FINDING: property={self.prop} {kf.get('what', r.ident)}"
